@@ -24,7 +24,7 @@ add('C03', 'l1', 'Exhaustive enumeration of the 4-locale domain (125 inherits ma
 add('C04', 'l1', 'Stage 1 (parser): generated range declarations over all numeric types are parsed and matched by an independent matcher, and `$t(range,{count:n})` must pick the same branch at parse time. Stage 2 (generated crates): the same kind of declarations compiled with load_locales!() and observed through td_string!/td_display!/td! in a run-time loop over every bound +-2, extremes (all 256 values for i8/u8; +-1 ulp for floats). Oracle: first containing branch under Rust range semantics.',
     L1_NOTE + 'every generated integer range has a fallback; empty ranges (5..5, ..MIN) are not generated.',
     technique='property-based testing against a reference model, at parser level and on generated crates (differential across three rendering back-ends)')
-add('C05', 'l1', 'Stage 1 (parser): hand-transcribed CLDR rules cross-checked against ICU4X; generated plural projects evaluated and `$t` literal counts resolved at parse time; UnusedForm diagnostics; raw plural-shaped key sets (mixing, collisions, single forms, no `other`). Stage 2 (generated crates): plural groups in 2-4 locales out of 16 covering every category pattern, observed through td_string!/td_display! (integers and FixedDecimal) and td! for 36 integer and 8 decimal counts.',
+add('C05', 'l1', 'Stage 1 (parser): hand-transcribed CLDR rules cross-checked against ICU4X; generated plural projects evaluated and `$t` literal counts resolved at parse time; UnusedForm diagnostics; raw plural-shaped key sets (mixing, collisions, single forms, no `other`). Stage 2 (generated crates): plural groups in 2-4 locales out of 16 covering every category pattern, observed through td_string!/td_display! (integers and FixedDecimal) and td! for 36 integer and 8 decimal counts. Stage 3 (generated crates): the t_plural!/tu_plural!/td_plural! macro family and its _ordinal forms on a live context (closures kept across set_locale), every arm subset, integer and decimal counts.',
     L1_NOTE + 'no fallback between locales for plural keys (which rules apply to an inherited plural is unspecified).',
     technique='property-based testing against hand-transcribed CLDR rules (cross-checked with ICU4X), at parser level and on generated crates')
 add('C06', 'l1', 'Exhaustive part: the enumerated 4-locale domain (125 inherits maps x 27 presence patterns of the target) with 8 reference shapes per pattern. Random part: generated acyclic `$t` reference graphs (all target and argument kinds, null/inherited targets, namespaces) and mutated negative classes (missing target, group target, cycles); resolved trees from the parser are evaluated and compared with structural substitution on the AST; negative classes must be rejected naming the key.',
@@ -32,7 +32,7 @@ add('C06', 'l1', 'Exhaustive part: the enumerated 4-locale domain (125 inherits 
     technique='exhaustive enumeration of a finite sub-domain + property-based testing against a reference model (structural substitution)')
 add('C07', 'l1', 'Generated key-set variations (absent / null / surplus keys and groups at every depth, inherits maps, kind flips); the multiset of MissingKey/SurplusKey diagnostics and the accessible key set from parse_locales are compared with the model.',
     L1_NOTE + 'three stages: parser level, the same on a harness build with suppress_key_warnings, and negative compile probes on generated crates.')
-add('C08', 'l1', 'Generated keys whose per-locale values differ in kind and member sets (and deliberate count conflicts); the InterpolOrLit computed by the parser is compared with the union over locales of the AST members after substitution.',
+add('C08', 'l1', 'Exhaustive part: the enumerated 4-locale domain (125 inherits maps x 27 presence patterns, 7 reference shapes) with locale-specific member names. Random part: generated keys whose per-locale values differ in kind and member sets (and deliberate count conflicts); the InterpolOrLit computed by the parser is compared with the union over locales of the AST members after substitution.',
     L1_NOTE + 'stage 2 = compile probes on generated crates: per key the valid call with exactly the union set (string and view back-ends; formatted variables as typed values) must compile with no error of any kind (compiled once without the negative probes so that borrow-check errors are not masked), and each omitted member / unknown member / unknown key / wrongly typed count must not compile.')
 add('C09', 'l1', 'Grammar-aware adversarial mutations of generated projects (delimiters, multi-byte characters, hostile ranges / bounds / counts / references / key names, mutated manifests) run in-process under catch_unwind through parse_locales, the build-script API and the code generator; deep / long values run in child processes with an 8 MiB stack; regression inputs of all earlier panics. Oracle: Ok or a non-empty error, never a panic, abort or signal.',
     'A child still running after 120 s is inconclusive (exit 2). Stack overflows on 65-130 kB single values are recorded as known finding D9. Coverage-guided byte-level fuzzing (libFuzzer) is the second stage of the thorough tier.',
@@ -72,6 +72,7 @@ ENGINES = [
     dict(name='l1', path='engine/l1 (+ l1y, l1j5: same sources built for yaml / json5)', kind_free_text='in-process parser / code-generator / build-helper harness driven by proptest choice tapes; sources of the proc-macro crate compiled in via #[path]'),
     dict(name='l2', path='engine/l2', kind_free_text='generated-crate tier: projects generated from choice tapes are emitted as cargo packages calling the real macros, compiled in one workspace, run, and their printed observations compared with the reference semantics (second stage of C01 C03 C04 C05 C06 C07 C08 C11 C18; sole engine of C02 C13); engine/vref is the independent ICU4X reference crate the C18 packages link'),
     dict(name='l0b', path='engine/l0b', kind_free_text='native run-time harness: router path helpers (hooks), I18nRoute, formatter parsing and run-time formatting'),
+    dict(name='l0bp', path='engine/l0bp', kind_free_text='the C18 run-time harness built against leptos_i18n without icu_compiled_data (custom ICU data provider registered at start): second stage of C18'),
     dict(name='l0dyn', path='engine/l0dyn', kind_free_text='native run-time harness built with dynamic_load+ssr: server-embedded translations'),
     dict(name='l0a', path='engine/l0a', kind_free_text='native (ssr) run-time harness: locale negotiation, context initialisation, context histories'),
 ]
@@ -81,10 +82,10 @@ def main():
     for e in ENGINES:
         e['serves_properties'] = sorted(p for p, c in C.items() if c['engine'] == e['name'])
     m = dict(version=1, setup_cmd='./setup.sh',
-             hooks=dict(guard='cargo feature `verif_hooks` on leptos_i18n_router (off by default)',
+             hooks=dict(guard='cargo feature `verif_hooks` on leptos_i18n_router (off by default): pub mod verif_hooks exposing get_locale_from_path, get_new_path, localize_path and last_route_tables',
                         enable='harness crates depend on leptos_i18n_router with features = ["ssr", "verif_hooks"]',
                         baseline_off_cmd='cd /repo && cargo test --workspace --no-fail-fast --offline',
-                        source_commits=['45ca6aa'], add_only=True),
+                        source_commits=['45ca6aa', '4e891ee'], add_only=True),
              engines=ENGINES,
              checks=[C[k] for k in sorted(C)],
              notes='Every check: ./check <ID> [--tier quick|thorough] [--replay file]; exit 0 / 1 (+VIOLATION line) / 2 (harness error, inconclusive). Known findings: known_findings.json. Deliberate mutants used to validate sensitivity: mutants/<ID>/*.diff (tools/runmutants.sh).',
